@@ -67,6 +67,8 @@ def strategy_(draw, tier):
         pts += [b * bs, (b + 1) * bs]
     spec["requests"] = draw(strat.requests(spec["disk_size"], bs, count=6, points=pts, whole_limit=4 << 20))
     spec["via_gzip"] = draw(st.integers(0, 7)) == 0
+    spec["via_minimal"] = draw(st.sampled_from([None, None, None, None, "plain", "seek-none"]))
+    spec["parent_positional"] = draw(st.booleans())
     spec["banner"] = draw(st.sampled_from(["<<< Oracle VM VirtualBox Disk Image >>>\n", "<<< Oracle VM VirtualBox Disk Image >>>\n",
                                            "<<< Sun xVM VirtualBox Disk Image >>>\n", "<<< innotek VirtualBox Disk Image >>>\n",
                                            "<<< QEMU VM Virtual Disk Image >>>\n", "", "<<< CloneVDI >>>"]))
@@ -119,7 +121,8 @@ def check(spec) -> Outcome:
             out.fail(err.sig("vdi-open"), f"VDI(parent) raised {err.describe()}")
             return out
         out.cls("with-parent")
-        v, err = lib(VDI, fh, parent=parent)
+        # the parent is the constructor's second parameter: given by keyword or by position
+        v, err = lib(VDI, fh, parent) if spec.get("parent_positional") else lib(VDI, fh, parent=parent)
         lay = Overlay([lay, play], spec["disk_size"])
     else:
         v, err = lib(VDI, fh)
@@ -129,6 +132,16 @@ def check(spec) -> Outcome:
     if v.size != spec["disk_size"]:
         out.fail("mismatch|vdi-size", f"size {v.size} != {spec['disk_size']}")
     check_reads(out, v, lay, spec["requests"], "vdi")
+    if spec.get("via_minimal") and not spec.get("parent") and not out.failures and fh.size <= (4 << 20):
+        # the same image through a file object that only has read / seek / tell / close
+        from hv.core import MinimalHandle
+
+        out.cls("via-minimal-handle")
+        v3, err = lib(VDI, MinimalHandle(fh.materialize(4 << 20), seek_returns_none=spec["via_minimal"] == "seek-none"))
+        if err:
+            out.fail(err.sig("vdi-minimal-open"), f"VDI(minimal file object) raised {err.describe()}")
+        else:
+            check_reads(out, v3, lay, spec["requests"][:4], "vdi-minimal")
     if spec.get("via_gzip") and not spec.get("parent") and not out.failures:
         # the same image behind gzip.open(): a handle with a descriptor of its own that belongs to other bytes
         from hv.core import gzip_handle
